@@ -10,7 +10,7 @@ from ..core import Ctx
 from ..flow import AV
 from ..model import AnalysisError, body_stmts, dotted, kwarg, norm, walk_no_nested
 from .c03 import rule_fast_cache
-from .common import assigned_value, bound_args, check_alignment_record, check_unitary_record, enclosing, key_function, pnorm, prog, resolve_local, stores_to
+from .common import assigned_value, bound_args, conditions_at, check_alignment_record, check_unitary_record, enclosing, key_function, pnorm, prog, resolve_local, stores_to
 
 FAST = "Continuum.get_fast_alignment"
 
@@ -147,12 +147,25 @@ def rule_progress(ctx: Ctx):
     gl = [x for x in walk_no_nested(g.node) if isinstance(x, ast.For)]
     why = "shape"
     gen_ok = False
+    head_first = False
     if len(gl) == 1:
         it = gl[0].iter
         inner = it.args[0] if isinstance(it, ast.Call) and dotted(it.func) == "enumerate" and it.args else it
+        rest_of = None
+        if isinstance(inner, ast.Subscript) and isinstance(inner.slice, ast.Slice) and norm(inner.slice) == "1:" and isinstance(inner.value, ast.Name):
+            rest_of, inner = inner.value.id, inner.value          # for x in xs[1:]  after  yield xs[0]
         inner = resolve_local(g.node, inner)
         covers_all = isinstance(inner, ast.Call) and dotted(inner.func) == "sorted" and norm(inner.args[0]) == f"{g.self_name}.unitary_alignments"
-        why = _first_iteration_yields(g, gl[0])
+        if rest_of is not None:
+            # second shape: the head is yielded unconditionally (an emptiness guard apart) before the loop over the rest
+            heads = [s for s in g.node.body if isinstance(s, ast.Expr) and isinstance(s.value, ast.Yield) and norm(s.value.value) == f"{rest_of}[0]"]
+            if len(heads) == 1 and g.node.body.index(heads[0]) < g.node.body.index(gl[0]):
+                conds = conditions_at(g.node, heads[0])
+                head_first = all(norm(t) in (f"not {rest_of}", f"len({rest_of}) == 0") and pol is False or
+                                 norm(t) in (rest_of, f"len({rest_of}) != 0", f"len({rest_of}) > 0") and pol is True for t, pol in conds)
+            why = None if head_first else "the first element is not yielded unconditionally before the loop over the rest"
+        else:
+            why = _first_iteration_yields(g, gl[0])
         gen_ok = covers_all and why is None
         if not covers_all:
             why = "does not iterate all unitary alignments in end order"
@@ -167,7 +180,10 @@ def rule_progress(ctx: Ctx):
     # sorted by right end (bounds[1]) and limit test on the same key
     key_ok = False
     if len(gl) == 1:
-        srt = resolve_local(g.node, gl[0].iter.args[0] if isinstance(gl[0].iter, ast.Call) and dotted(gl[0].iter.func) == "enumerate" else gl[0].iter)
+        srt0 = gl[0].iter.args[0] if isinstance(gl[0].iter, ast.Call) and dotted(gl[0].iter.func) == "enumerate" else gl[0].iter
+        if head_first and isinstance(srt0, ast.Subscript):
+            srt0 = srt0.value
+        srt = resolve_local(g.node, srt0)
         kk = kwarg(srt, "key") if isinstance(srt, ast.Call) else None
         kf = key_function(ctx.model, g, kk)
         key_ok = kf is not None and norm(kf[1]) == f"{kf[0]}.bounds[1]"
